@@ -29,12 +29,12 @@ BASE_PROFILE: Dict[str, Any] = dict(
     p_reuse=0.3, p_debug=0.0, p_setup=0.0, p_tag=0.0, p_fn_unpack=0.1,
     resources=[("thread", 5), ("async_thread", 2), ("main_thread", 2)], p_seq=0.18, prio=(-2, 4),
     p_prio=0.6, max_args=3, n_params=(0, 3), p_default=0.45,
-    ret_types=[("int", 4), ("bool", 2), ("tuple2", 2), ("list3", 1), ("dict", 1)],
+    ret_types=[("int", 8), ("bool", 4), ("tuple2", 4), ("list3", 2), ("dict", 2), ("str", 2), ("none", 1)],
     ret_shapes=[("single", 3), ("tuple", 3), ("list", 1), ("dict", 1), ("none", 0.5)],
     mc=(1, 5), p_async=0.3, p_ret_const=0.12, p_reflect=0.2,
     p_nested_flag=0.3, p_same_inner_twice=0.0, p_p6=0.0, p_explicit_default=0.7,
     shape_bias=[("uniform", 3), ("recent", 2), ("early", 1), ("wide", 1)],
-    p_setup_in_nested=0.0, main_flat=False, all_return=False, p_inner_const=0.0, swarm=("resources", "p_dep", "max_args"),
+    p_setup_in_nested=0.0, main_flat=False, all_return=False, p_inner_const=0.0, w_concat=1.0, p_tag_is_id=0.0, swarm=("resources", "p_dep", "max_args"),
 )
 
 
@@ -111,6 +111,8 @@ class ProgramGen:
         tag = None
         if p["p_tag"] and d.bool(p["p_tag"]):
             tag = d.pick(["t0", "t1", ["t0", "t2"]])
+            if p["p_tag_is_id"] and self.funcs and d.bool(p["p_tag_is_id"]):
+                tag = d.pick(sorted(self.funcs))   # a tag equal to the id of another node (the first call site of that function)
         unpack_to = 2 if (ret == "tuple2" and not setup and p["p_fn_unpack"] and d.bool(p["p_fn_unpack"])) else None
         self.funcs[name] = dict(c=d.int(1, 999), ret=ret, priority=prio, is_sequential=d.bool(p["p_seq"]),
                                 resource=res, debug=debug, setup=setup, tag=tag, unpack_to=unpack_to)
@@ -174,8 +176,11 @@ class ProgramGen:
         d, p = self.d, self.prof
         ints = [v for v in st["vars"] if v.type in ("int", "bool") and not v.nullable and not v.debug]
         opts = [("call", p["w_call"])]
+        conts = [v for v in st["vars"] if v.type in ("list3", "lst", "str", "dict") and not v.nullable and not v.debug]
         if ints:
             opts += [("op", p["w_op"]), ("uop", p["w_uop"]), ("logic", p["w_logic"])]
+        if conts and p["w_op"] > 0:
+            opts.append(("concat", p["w_concat"]))
         if st["depth"] < p["max_depth"]:
             opts.append(("nested", p["w_nested"]))
         opts = [(k, w) for k, w in opts if w > 0]
@@ -184,6 +189,23 @@ class ProgramGen:
             self.gen_call(st)
         elif kind == "op":
             self.gen_op(st, ints)
+        elif kind == "concat":
+            # non-commutative operators on containers / strings: operand order matters (reflected forms included)
+            v = self.pick_var(conts)
+            fam = "lst" if v.type in ("list3", "lst") else v.type
+            same = [w for w in conts if ("lst" if w.type in ("list3", "lst") else w.type) == fam]
+            cst = {"lst": "[7]", "str": "'k'", "dict": "{'a': 0, 'c': 1}"}[fam]
+            op = "|" if fam == "dict" else "+"
+            form = d.pick(["vc", "cv", "vv"])
+            a: list = ["v", v.name, []]
+            b: list = ["c", cst]
+            if form == "cv":
+                a, b = b, a
+            elif form == "vv":
+                b = ["v", self.pick_var(same).name, []]
+            out = f"v{len(st['stmts'])}"
+            st["stmts"].append(dict(k="op", op=op, a=a, b=b, out=[out]))
+            st["vars"].append(_Var(out, "lst" if fam == "lst" else fam, stmt=len(st["stmts"]) - 1))
         elif kind == "uop":
             v = self.pick_var(ints)
             out = f"v{len(st['stmts'])}"
@@ -287,7 +309,7 @@ class ProgramGen:
                 vars_.append(_Var(outs[i], t, debug=f["debug"], setup=f["setup"], stmt=idx, key=[i]))
         else:
             outs = [f"v{idx}"]
-            vars_.append(_Var(outs[0], f["ret"], nullable=nullable, debug=f["debug"], setup=f["setup"], stmt=idx))
+            vars_.append(_Var(outs[0], f["ret"], nullable=nullable or f["ret"] == "none", debug=f["debug"], setup=f["setup"], stmt=idx))
         st["stmts"].append(dict(k="call", fn=fname, args=args, kwargs=kwargs, flag=flag, tag=tag,
                                 unpack=unpack, out=outs))
         st["has_setup"] = st["has_setup"] or f["setup"]
